@@ -94,6 +94,9 @@ func decodeHuffmanLargeLoop(state *inflate, output []byte, written int) (finalWr
 
 	state.copyOverflowLength = 0
 	state.copyOverflowDistance = 0
+	// single: the input ran out inside a table entry that packs several symbols; its symbols are then taken one at
+	// a time, so that what is decoded before io.ErrUnexpectedEOF does not depend on how the input was delivered
+	single := false
 	for state.phase == phaseHeaderDecoded {
 
 		// state.InLoad(0)
@@ -159,6 +162,12 @@ func decodeHuffmanLargeLoop(state *inflate, output []byte, written int) (finalWr
 
 			if nextSym&largeFlagBit == 0 {
 				bitCount := nextSym >> largeShortCodeLenOffset
+				if single && bitCount != 0 && (nextSym>>largeSymCountOffset)&largeSymCountMask > 1 {
+					// only the first literal of the packed entry, by its own code length
+					first := nextSym & 0xff
+					bitCount = state.dynHdr.litAndDistHuff[first].Length()
+					nextSym = first | 1<<largeSymCountOffset
+				}
 				bits >>= bitCount
 				bitsLen -= int32(bitCount)
 
@@ -197,9 +206,14 @@ func decodeHuffmanLargeLoop(state *inflate, output []byte, written int) (finalWr
 			bits = bitsTemp
 			bitsLen = bitsLenTemp
 			input = inputTemp
+			if symCount > 1 && !single {
+				single = true
+				continue
+			}
 			err = errEndInput
 			goto FINISH
 		}
+		packed := symCount > 1
 
 		for symCount > 0 {
 			nextLit := uint16(nextLits & 0xffff)
@@ -339,6 +353,12 @@ func decodeHuffmanLargeLoop(state *inflate, output []byte, written int) (finalWr
 					written = writtenTemp
 					state.writeOverflowLits = 0
 					state.writeOverflowLen = 0
+					if packed && !single {
+						// the literals in front of the length are complete: decode them on their own
+						single = true
+						symCount = 0
+						continue
+					}
 					err = errEndInput
 					goto FINISH
 				}
